@@ -50,14 +50,16 @@ def disc_path(pc, i):
 
 
 def disc_file(case, i):
-    name = "disc%d" % i
+    name = "disc_cmd_%d" % i       # several words: the wrapper is called discCmd<i>, the invoked command keeps this name
     nm = case.get("nm", "plain")
     written = {"plain": name, "raw": "r#" + name, "underscore": "_" + name}[nm]
     if nm == "underscore":
         name = "_" + name
-    fn = "%s%s%sfn %s(%sx: i32) -> i32 {\n    x\n}\n" % (
-        ATTR_TEXT[case["attr"]], VIS[case["vis"]], "async " if case["async"] else "", written,
-        "&self, " if case["pos"] == "impl" else "")
+    sig = {"value": ("x: i32", " -> i32", "x"), "none": ("", "", ""), "channel": ("on_event: tauri::ipc::Channel<u32>", "", ""),
+           "both": ("x: i32, on_event: tauri::ipc::Channel<u32>", " -> i32", "x"), "injected": ("app: tauri::AppHandle", "", "")}[case.get("par", "value")]
+    selfp = "&self" + (", " if sig[0] else "") if case["pos"] == "impl" else ""
+    fn = "%s%s%sfn %s(%s%s)%s {\n    %s\n}\n" % (
+        ATTR_TEXT[case["attr"]], VIS[case["vis"]], "async " if case["async"] else "", written, selfp, sig[0], sig[1], sig[2])
     helper = "fn helper_%d() {}\n" % i
     if case["pos"] == "top":
         body = fn
@@ -211,6 +213,22 @@ def graph_source(i, g):
         sp = rustgen.Speller(rotate=False)
         ty = rustgen.spell(prefix_ty(r["ty"], pre), sp)
         fn = "g%d_r%d" % (i, j)
+        if r.get("site2"):
+            # one command, two sites: A at r["site"], the second type at r["site2"]
+            sp2 = rustgen.Speller(rotate=False)
+            ty2 = rustgen.spell(prefix_ty(r["ty2"], pre), sp2)
+            at = {r["site"]: ty, r["site2"]: ty2}
+            ps = []
+            if "param" in at:
+                ps.append("x: %s" % at["param"])
+            if "chan" in at:
+                ps.append("ch: Channel<%s>" % at["chan"])
+            ret = (" -> %s" % at["ret"]) if "ret" in at else ""
+            put("cmd", "#[tauri::command]\npub fn %s(%s)%s {\n    todo!()\n}\n" % (fn, ", ".join(ps), ret))
+            roots.append({"site": r["site"], "ctx": "direct", "to": pre + r["to"]})
+            for other in r.get("also") or []:
+                roots.append({"site": r["site2"], "ctx": r["ctx"], "to": pre + other})
+            continue
         if r["site"] == "param":
             put("cmd", "#[tauri::command]\npub fn %s(x: %s) {}\n" % (fn, ty))
         elif r["site"] == "ret":
@@ -218,7 +236,8 @@ def graph_source(i, g):
         elif r["site"] == "chan":
             put("cmd", "#[tauri::command]\npub fn %s(ch: Channel<%s>) {}\n" % (fn, ty))
         elif r["site"] == "event":
-            put("cmd", "pub fn %s(app: tauri::AppHandle, x: %s) {\n    app.emit(\"g%d-ev%d\", x).ok();\n}\n" % (fn, ty, i, j))
+            evn = ("g%d-%s" % (i, r["evname"])) if r.get("evname") else ("g%d-ev%d" % (i, j))
+            put("cmd", "pub fn %s(app: tauri::AppHandle, x: %s) {\n    app.emit(\"%s\", x).ok();\n}\n" % (fn, ty, evn))
         elif r["site"] == "err":
             put("cmd", "#[tauri::command]\npub fn %s() -> Result<u8, %s> {\n    todo!()\n}\n" % (fn, ty))
         roots.append({"site": r["site"], "ctx": r["ctx"], "to": pre + r["to"]})
